@@ -1,8 +1,9 @@
 """SIGN-PAIR: seconds and nanoseconds of one instant / duration never have opposite signs.
 
 Sites: every aggregate construction of shared::util::itime::ITimestamp, timestamp::Timestamp and
-signed_duration::SignedDuration, and every call of SignedDuration::new_unchecked (the pub(crate) constructor that
-takes the pair on trust).  At each site the pair (seconds, nanoseconds) must be shown sign-consistent by one of:
+signed_duration::SignedDuration, every write to one of the two fields of an existing value of these types (the pair
+is then the untouched field and the new value), and every call of SignedDuration::new_unchecked (the pub(crate)
+constructor that takes the pair on trust).  At each site the pair (seconds, nanoseconds) must be shown sign-consistent by one of:
 
   CONST-ZERO   one component is the constant 0 / has the interval [0, 0]
   SAME-SIGN    the intervals of both components lie on the same side of 0
@@ -41,6 +42,16 @@ def _sites(fn):
                 ops = dict(zip(rv.get("fields") or [], rv["ops"]))
                 if names[0] in ops and names[1] in ops:
                     yield (bi, si, "%s{..}" % rv["adt"].split("::")[-1], ops[names[0]], ops[names[1]], s.get("ln"))
+            # a write to one field of an existing carrier value builds the pair (other field as it is, new value)
+            if s["s"] == "=" and "p" in s.get("lhs", {}):
+                e = s["lhs"]["p"][-1]
+                if isinstance(e, dict) and e.get("adt") in CARRIERS and e.get("n") in CARRIERS[e["adt"]]:
+                    names = CARRIERS[e["adt"]]
+                    oi = 1 - names.index(e["n"])
+                    other = {"o": "cp", "l": s["lhs"]["l"], "p": list(s["lhs"]["p"][:-1]) + [{"f": oi, "n": names[oi], "adt": e["adt"]}]}
+                    new = s["rv"]["a"] if s["rv"]["k"] == "use" else None
+                    pair = (other, new) if oi == 0 else (new, other)
+                    yield (bi, si, "%s.%s=" % (e["adt"].split("::")[-1], e["n"]), pair[0], pair[1], s.get("ln"))
         t = b["term"]
         if t["t"] == "call" and t.get("path") == NEW_UNCHECKED and len(t.get("args", [])) == 2:
             yield (bi, "term", "new_unchecked", t["args"][0], t["args"][1], (t.get("span") or {}).get("line"))
@@ -347,7 +358,7 @@ def _iv_at(an, bi, si, op):
 
 
 def run_signpair(ctx, rep, cfg="Q", rule="SIGN-PAIR", select=None, floor=10):
-    rep.rule(rule, "at every construction of an ITimestamp, Timestamp or SignedDuration and every call of "
+    rep.rule(rule, "at every construction of an ITimestamp, Timestamp or SignedDuration, every write to one of their two fields and every call of "
                    "SignedDuration::new_unchecked the (seconds, nanoseconds) pair is sign-consistent: a component is 0, both "
                    "intervals lie on one side of 0, both are the fields of one carrier value, they are quotient and remainder "
                    "of one truncating division, or one of these holds on every acyclic path to the site under "
@@ -370,6 +381,9 @@ def run_signpair(ctx, rep, cfg="Q", rule="SIGN-PAIR", select=None, floor=10):
             ords[what] = ords.get(what, 0) + 1
             key = norm_key("%s | %s#%d" % (f.key, what, ords[what]))
             loc = "%s:%s" % (f.file, ln)
+            if sop is None or nop is None:
+                rep.classify(rule, key, reviewed, loc=loc, detail="a field of the pair is overwritten with a computed value (not a plain operand)")
+                continue
             a, b = _iv_at(an, bi, si, sop), _iv_at(an, bi, si, nop)
             if a == "infeasible" or b == "infeasible":
                 rep.ok(rule, key, how="infeasible block", loc=loc, nontrivial=False)
@@ -846,4 +860,92 @@ def run_negmagnitude(ctx, rep, cfg="Q", rule="NEG-MAGNITUDE", floor=1):
                 rep.violation(rule, key, "the Ok payload of %s is negated on a path that never compared the magnitude with |MIN|: a result "
                               "equal to the signed minimum (magnitude 2^63 s) is rejected by the conversion although it is representable"
                               % conv[0][1].split(" as ")[0][-60:], loc)
+    rep.floor(rule + " sites", n, floor)
+
+
+# ------------------------------------------------------------------------------------------------------------------
+_SEC_GET = ("as_secs", "as_second", "as_second_ranged")
+_NANO_GET = ("subsec_nanos", "subsec_nanosecond", "subsec_nanosecond_ranged")
+_WHOLE = ("is_negative", "is_positive", "is_zero", "signum")
+_UNWRAP = ("get", "rinto", "rfrom", "into", "from", "get_unchecked", "without_bounds", "clone")
+
+
+def _component(t, in_carrier=False):
+    """('s'|'n', carrier term) if t is the seconds / nanoseconds component of a SignedDuration / Timestamp / ITimestamp value"""
+    while isinstance(t, tuple) and t and ((t[0] == "call" and t[1].rsplit("::", 1)[-1] in _UNWRAP and t[2]) or t[0] == "cast"):
+        t = t[2][0] if t[0] == "call" else t[1]
+    if isinstance(t, tuple) and t and t[0] == "call" and t[2] and ("SignedDuration" in t[1] or "Timestamp" in t[1]):
+        last = t[1].rsplit("::", 1)[-1]
+        if last in _SEC_GET:
+            return ("s", t[2][0])
+        if last in _NANO_GET:
+            return ("n", t[2][0])
+    if in_carrier and isinstance(t, tuple) and t and t[0] == "field" and t[2] in S_NAMES:
+        return (S_NAMES[t[2]], t[1])
+    return None
+
+
+def _is_zero_const(t):
+    while isinstance(t, tuple) and t and t[0] == "cast":
+        t = t[1]
+    if t == ("const", 0):
+        return True
+    return isinstance(t, tuple) and t and t[0] == "call" and t[1].rsplit("::", 1)[-1] in ("C", "N", "rfrom", "rinto", "new_unchecked") \
+        and len(t[2]) == 1 and _is_zero_const(t[2][0])
+
+
+def run_partsign(ctx, rep, cfg="Q", rule="PART-SIGN", floor=1):
+    """the sign of a (seconds, nanoseconds) value is not the sign of its seconds"""
+    rep.rule(rule, "wherever the whole-seconds component of a SignedDuration / Timestamp / ITimestamp is compared with zero, the same "
+                   "function also reads the nanosecond component (or is_negative/is_positive/is_zero/signum) of the same value: "
+                   "the seconds of -0.5s are 0, so `as_secs() < 0` is false for a negative value - a direction decided by it "
+                   "(saturating arithmetic, clamping, printing a sign) is wrong for every value in (-1s, 0)")
+    prog = ctx.prog(cfg)
+    n = 0
+    for f in sorted(prog.fns.values(), key=lambda f: f.key):
+        if f.crate != "jiff":
+            continue
+        T = None
+        tests = []
+        inc = any(x in f.path for x in ("SignedDuration", "timestamp::Timestamp", "ITimestamp"))   # field reads count only inside the carriers' own impls
+        for bi, b in enumerate(f.blocks):
+            for si, s in enumerate(b["st"]):
+                if s["s"] == "=" and s["rv"]["k"] == "bin" and s["rv"].get("op") in ("Lt", "Le", "Gt", "Ge"):
+                    T = T or Terms(f)
+                    x, y = T.operand(s["rv"]["a"], pos=(bi, si)), T.operand(s["rv"]["b"], pos=(bi, si))
+                    tests.append((x, y, s.get("ln")))
+            t = b["term"]
+            if t["t"] == "call" and re.search(r"PartialOrd.*::(lt|le|gt|ge)$", t.get("path", "")) and len(t.get("args", [])) == 2:
+                T = T or Terms(f)
+                tests.append((T.at_call(bi, t, 0), T.at_call(bi, t, 1), (t.get("span") or {}).get("line")))
+        k = 0
+        for (x, y, ln) in tests:
+            for a, z in ((x, y), (y, x)):
+                c = _component(a, inc)
+                if not (c and c[0] == "s" and _is_zero_const(z)):
+                    continue
+                n += 1
+                k += 1
+                key = norm_key("%s | seconds vs 0 #%d" % (f.key, k))
+                loc = "%s:%s" % (f.file, ln)
+                carrier = c[1]
+                other = False
+                for bi, b in enumerate(f.blocks):
+                    for si, s in enumerate(b["st"]):
+                        if s["s"] == "=" and s["rv"]["k"] in ("use", "bin", "cast"):
+                            for opk in ("a", "b"):
+                                if opk in s["rv"] and isinstance(s["rv"][opk], dict) and s["rv"][opk].get("o") in ("cp", "mv"):
+                                    c2 = _component(T.operand(s["rv"][opk], pos=(bi, si)), inc)
+                                    if c2 and c2[0] == "n" and c2[1] == carrier:
+                                        other = True
+                    t = b["term"]
+                    if t["t"] == "call" and t.get("args"):
+                        last = t.get("path", "").rsplit("::", 1)[-1]
+                        if (last in _NANO_GET or last in _WHOLE) and T.at_call(bi, t, 0) == carrier:
+                            other = True
+                if other:
+                    rep.ok(rule, key, how="the nanoseconds (or the whole value's sign) of the same value are read as well", loc=loc)
+                else:
+                    rep.violation(rule, key, "the seconds component of %s is compared with zero and nothing else of that value is "
+                                  "consulted: wrong for values strictly between -1s and 0" % show(carrier, maxd=2)[:60], loc)
     rep.floor(rule + " sites", n, floor)
